@@ -113,3 +113,23 @@ Qed.
 Lemma runx_left_perm ops :
   Permutation (xlog (runx ops) ++ xdropped (runx ops)) (leftsx ops initx).
 Proof. unfold runx. eapply Permutation_trans; [apply runx_left_perm_from|]. cbn. apply Permutation_refl. Qed.
+
+(* what stays queued after a pass ended by an exception on p0: packets deferred because their destination failed
+   transiently earlier in this pass (p0's own destination is not among those: its earlier packets were all sent),
+   followed by the untouched rest *)
+Lemma servicex_fatal_remaining q orc q' s p0 : servicex q orc = (q', s, Some p0) ->
+  exists pre post l1 ob,
+    q = pre ++ p0 :: post /\ q' = l1 ++ post /\ service pre ob = (l1, s) /\
+    (forall x, In x l1 -> memZ (dst x) (blocked_of pre ob) = true) /\
+    memZ (dst p0) (blocked_of pre ob) = false /\ to (dst p0) l1 = [].
+Proof.
+  unfold servicex. destruct (passx q [] [] orc []) as [[[a b] c] r] eqn:Hp. intros H. inversion H; subst.
+  destruct (passx_pass _ _ _ _ _ _ _ _ _ Hp) as (pre & post & ob & l1 & E & P & Q & M).
+  exists pre, post, l1, ob.
+  assert (S : service pre ob = (l1, s)) by (unfold service; rewrite P; reflexivity).
+  assert (B : blocked_of pre ob = c) by (unfold blocked_of; rewrite P; reflexivity).
+  assert (LB : laters_blocked l1 c).
+  { apply (pass_unblocked pre [] [] ob [] l1 s c); [intros x []|exact P]. }
+  rewrite B. repeat split; try assumption.
+  apply (to_nil_unblocked l1 c (dst p0) LB M).
+Qed.
